@@ -898,6 +898,53 @@ def r_ignored(prog, R):
             r.ok(k, f.loc(el))
 
 
+def r_port(prog, R):
+    r = R.rule("R-C15-PORT", "a port number read from configuration text is range-checked before it is narrowed to 16 bits: `1.2.3.4:99999`, `dns://1.2.3.4:70000` and `?tcpport=99999` are "
+               "refused (the entry is then ignored like any other malformed one) instead of silently becoming some other port", floor=3,
+               analysis="narrowing casts of text conversions: the converted value is held in a variable whose upper bound at the cast (A-DOM facts + interval) is <= 65535")
+    n = 0
+    for f in sorted(prog.funcs.values(), key=lambda x: x.key):
+        if f.file not in ("src/lib/ares_update_servers.c", "src/lib/util/ares_uri.c"):
+            continue
+        convs = {c.get("id") for _, _, c in f.calls() if c.get("callee") in ("atoi", "atol", "strtol", "strtoul")}
+        if not convs:
+            continue
+        mf = None
+        conv_vars = set()
+        for b, i, el in f.elements():
+            for tgt, rhs in ([(strip(el["e"]["l"]), el["e"].get("r"))] if el["k"] == "asg" and el["e"]["op"] == "=" else []) + ([({"k": "var", "n": v["n"]}, v.get("init")) for v in el["vars"] if v.get("init") is not None] if el["k"] == "decl" else []):
+                rs = strip(rhs)
+                if tgt is not None and tgt.get("k") == "var" and rs is not None and rs.get("k") == "call" and rs.get("id") in convs:
+                    conv_vars.add(tgt["n"])
+        for b, i, el in list(f.elements()):
+            nodes = []
+            if el["k"] == "asg":
+                nodes = list(walk(el["e"].get("r")))
+            elif el["k"] == "call":
+                nodes = [x for a in el["e"].get("args", []) for x in walk(a)]
+            for nd in nodes:
+                if not (isinstance(nd, dict) and nd.get("k") == "cast" and nd.get("to") in ("unsigned short", "uint16_t")):
+                    continue
+                inner = strip(nd["e"])
+                if inner is None:
+                    continue
+                if inner.get("k") == "call" and inner.get("id") in convs:
+                    n += 1
+                    r.viol("fn=%s %s range-checked" % (f.name, render(nd)[:50]), f.name, f.loc(el), "%s narrows the converted text directly to 16 bits: a value above 65535 (five digits are read) wraps to another port "
+                           "and the malformed entry takes effect" % f.name)
+                    continue
+                if inner.get("k") == "var" and inner["n"] in conv_vars:
+                    n += 1
+                    mf = mf or MustFacts(f)
+                    lo, hi = interval(inner, mf.cond_facts_at(b, i), prog, f, point=(b.id, i))
+                    k = "fn=%s %s range-checked" % (f.name, render(nd)[:50])
+                    if hi is not None and hi <= 65535:
+                        r.ok(k, f.loc(el))
+                    else:
+                        r.viol(k, f.name, f.loc(el), "'%s' holds a number converted from configuration text and is narrowed to 16 bits without an upper bound of 65535 being established (bound: %s)" % (inner["n"], hi))
+    r.require(n >= 3, "port conversions in the server-list parsers not found (%d)" % n)
+
+
 def run(prog, R, tier):
     R.assume("callees are given valid (non-NULL) pointers by the configuration parsers (defensive NULL-argument returns are not part of the return sets)")
     ownrules.own_rule(prog, R, "R-C15-OWN", FILES, floor=30)
@@ -913,5 +960,6 @@ def run(prog, R, tier):
     r_linefeed(prog, R)
     r_initorder(prog, R)
     r_ignored(prog, R)
+    r_port(prog, R)
     ownrules.realloc_rule(prog, R, "R-C15-REALLOC")
     outinit.outinit_rule(prog, R, "R-C15-OUTINIT", floor=10)
